@@ -5,6 +5,7 @@ go 1.26.1
 require (
 	github.com/anishathalye/porcupine v1.3.0
 	github.com/avast/retry-go/v4 v4.7.0
+	github.com/go-chi/chi/v5 v5.2.5
 	github.com/mholt/acmez/v3 v3.1.6
 	github.com/miekg/dns v1.1.72
 	github.com/quic-go/quic-go v0.59.0
@@ -27,7 +28,6 @@ require (
 	github.com/dominikbraun/graph v0.23.0 // indirect
 	github.com/fatih/color v1.18.0 // indirect
 	github.com/getsentry/sentry-go v0.43.0 // indirect
-	github.com/go-chi/chi/v5 v5.2.5 // indirect
 	github.com/go-chi/httprate v0.15.0 // indirect
 	github.com/jedib0t/go-pretty/v6 v6.7.8 // indirect
 	github.com/klauspost/cpuid/v2 v2.3.0 // indirect
